@@ -128,12 +128,12 @@ func decodeCode(code string) ([]bInstr, map[int]int, []string) {
 }
 
 type bVerifier struct {
-	code   *py.Code
-	ins    []bInstr
-	idx    map[int]int
-	rep    *BcReport
-	seen   map[int]map[string]bState
-	work   []struct {
+	code *py.Code
+	ins  []bInstr
+	idx  map[int]int
+	rep  *BcReport
+	seen map[int]map[string]bState
+	work []struct {
 		pc int
 		st bState
 	}
